@@ -65,6 +65,10 @@ pub struct Recipe {
     /// per work() call, on its own clock) instead of as much as fits
     #[serde(default)]
     pub src_pieces: Vec<u16>,
+    /// the source delivers `src_pieces` as *packets* (one per call) into a VecToStream block
+    /// instead of writing the pieces to a sample stream
+    #[serde(default)]
+    pub pkt: bool,
 }
 
 pub fn stage_strategy() -> impl Strategy<Value = Stage> {
@@ -117,6 +121,7 @@ pub fn recipe_strategy(max_len: u32) -> BoxedStrategy<Recipe> {
             order,
             pages,
             src_pieces: vec![],
+            pkt: false,
         })
         .boxed()
 }
@@ -135,22 +140,34 @@ pub fn tiny_recipe_strategy() -> BoxedStrategy<Recipe> {
         1 => Just(Stage::ToFloat),
         1 => (crate::catalog::tapspec_strategy(3), 1u8..3).prop_map(|(t, d)| Stage::Fir(t, d)),
     ];
+    // one case in six: a packet source (1-5 packets of up to 2000 samples, so that a few of
+    // them fill the one-page stream behind VecToStream) instead of a sample source
+    let pieces = prop_oneof![
+        5 => prop::collection::vec(1u16..6, 1..5).prop_map(|p| (p, false)),
+        1 => prop::collection::vec(prop_oneof![1u16..6, 1u16..2000, 1000u16..2000], 1..6).prop_map(|p| (p, true)),
+    ];
     (
-        prop::collection::vec(1u16..6, 1..5),
+        pieces,
         any::<u32>(),
-        prop::collection::vec(stage, 1..3),
+        prop::collection::vec(stage, 0..3),
         prop::collection::vec(any::<u16>(), 16),
     )
-        .prop_map(|(src_pieces, seed, pre, order)| Recipe {
-            src: Gen { pat: 0, len: src_pieces.iter().map(|x| *x as u32).sum(), seed },
-            src2: None,
-            pre,
-            diamond: None,
-            post: vec![],
-            extra_sink: 0,
-            order,
-            pages: 1,
-            src_pieces,
+        .prop_map(|((src_pieces, pkt), seed, mut pre, order)| {
+            if !pkt && pre.is_empty() {
+                pre.push(Stage::Nrzi);
+            }
+            Recipe {
+                src: Gen { pat: 0, len: src_pieces.iter().map(|x| *x as u32).sum(), seed },
+                src2: None,
+                pre,
+                diamond: None,
+                post: vec![],
+                extra_sink: 0,
+                order,
+                pages: 1,
+                src_pieces,
+                pkt,
+            }
         })
         .boxed()
 }
@@ -235,8 +252,22 @@ pub fn build_opts(r: &Recipe, size: Option<usize>, endless: bool) -> BuiltGraph 
         let mut d = source_bits(r, &r.src);
         let total: usize = r.src_pieces.iter().map(|x| *x as usize).sum();
         d.resize(total, 1);
-        let (b, o) = PieceSource::new(d, r.src_pieces.iter().map(|x| *x as usize).collect(), 0);
-        (Box::new(b), o)
+        if r.pkt {
+            let mut pk = Vec::new();
+            let mut at = 0usize;
+            for l in &r.src_pieces {
+                pk.push(d[at..at + *l as usize].to_vec());
+                at += *l as usize;
+            }
+            let (b, po) = PacketSource::new(pk, 0);
+            blocks.push(Box::new(b));
+            names.push("Source".to_string());
+            let (v, o) = VecToStream::new(po);
+            (Box::new(v), o)
+        } else {
+            let (b, o) = PieceSource::new(d, r.src_pieces.iter().map(|x| *x as usize).collect(), 0);
+            (Box::new(b), o)
+        }
     } else if endless {
         let mut d = source_bits(r, &r.src);
         if d.is_empty() {
@@ -249,7 +280,7 @@ pub fn build_opts(r: &Recipe, size: Option<usize>, endless: bool) -> BuiltGraph 
         (Box::new(b), o)
     };
     blocks.push(s);
-    names.push("Source".to_string());
+    names.push(if r.pkt && !r.src_pieces.is_empty() && !endless { "VecToStream".to_string() } else { "Source".to_string() });
     let mut cur = Cur::B(out);
     if let Some(g2) = &r.src2 {
         let (s2, out2) = VectorSource::new(gen_u8(g2, BDom::Bits));
@@ -548,6 +579,8 @@ pub struct Shared {
     pub fail_yields: AtomicU64,
     /// the injected failure has been returned to the runner
     pub failed: AtomicBool,
+    /// per block: its injected failure has been returned
+    pub failed_blocks: Vec<AtomicBool>,
 }
 impl Shared {
     pub fn new(n: usize) -> Arc<Self> {
@@ -558,6 +591,7 @@ impl Shared {
             dropped: (0..n).map(|_| AtomicBool::new(false)).collect(),
             fail_yields: AtomicU64::new(0),
             failed: AtomicBool::new(false),
+            failed_blocks: (0..n).map(|_| AtomicBool::new(false)).collect(),
         })
     }
 }
@@ -591,6 +625,7 @@ impl Block for Wrapped {
                 crate::sched::hpoint();
             }
             self.shared.failed.store(true, Ordering::SeqCst);
+            self.shared.failed_blocks[self.idx].store(true, Ordering::SeqCst);
             return Err(rustradio::Error::msg(format!("injected#{}", self.idx)));
         }
         self.inner.work()
@@ -603,6 +638,12 @@ impl Drop for Wrapped {
 }
 
 pub fn wrap(blocks: Vec<Box<dyn Block + Send>>, names: &[String], shared: &Arc<Shared>, fail: Option<(usize, u64)>) -> Vec<Box<dyn Block + Send>> {
+    let fails: Vec<(usize, u64)> = fail.into_iter().collect();
+    wrap_multi(blocks, names, shared, &fails)
+}
+
+/// Like `wrap`, with any number of failing blocks (block index, failing call number).
+pub fn wrap_multi(blocks: Vec<Box<dyn Block + Send>>, names: &[String], shared: &Arc<Shared>, fails: &[(usize, u64)]) -> Vec<Box<dyn Block + Send>> {
     blocks
         .into_iter()
         .enumerate()
@@ -611,7 +652,7 @@ pub fn wrap(blocks: Vec<Box<dyn Block + Send>>, names: &[String], shared: &Arc<S
                 inner: b,
                 idx: i,
                 shared: shared.clone(),
-                fail_on: fail.and_then(|(p, k)| if p == i { Some(k) } else { None }),
+                fail_on: fails.iter().find(|(p, _)| *p == i).map(|(_, k)| *k),
                 name: names[i].clone(),
             }) as Box<dyn Block + Send>
         })
@@ -657,6 +698,25 @@ pub struct PieceSource {
     data: Vec<u8>,
     pieces: Vec<usize>,
     idx: usize,
+}
+/// Finite packet source: one packet per call, then EOF.
+#[derive(rustradio::rustradio_macros::Block)]
+#[rustradio(new)]
+pub struct PacketSource {
+    #[rustradio(out)]
+    dst: rustradio::stream::NCWriteStream<Vec<u8>>,
+    packets: Vec<Vec<u8>>,
+    idx: usize,
+}
+impl Block for PacketSource {
+    fn work(&mut self) -> rustradio::Result<BlockRet> {
+        if self.idx >= self.packets.len() {
+            return Ok(BlockRet::EOF);
+        }
+        self.dst.push(self.packets[self.idx].clone(), &[]);
+        self.idx += 1;
+        Ok(if self.idx == self.packets.len() { BlockRet::EOF } else { BlockRet::Again })
+    }
 }
 impl Block for PieceSource {
     fn work(&mut self) -> rustradio::Result<BlockRet> {
